@@ -157,7 +157,14 @@ def judge(spec: dict, out: _gen.GenOutcome, log: core.EventLog, stats: dict):
         if acc is None:
             lo = hi = total
         elif isinstance(acc, float):
-            lo, hi = math.floor(acc * total - 1e-9), math.ceil(acc * total + 1e-9)
+            # a proportion: "never more than requested" means count <= acc * total in exact arithmetic, i.e. <= its floor; the
+            # proportion is the decimal the caller wrote (the swarm writes <= 3 decimals, so acc * total is an integer or at
+            # least 0.001 away from one and binary rounding cannot carry the float product across an integer upwards); where the
+            # float product falls just *below* an exact integer (0.29 * 100 = 28.999...) either count is "exactly that many"
+            from fractions import Fraction
+
+            hi = math.floor(Fraction(repr(acc)) * total)
+            lo = min(hi, math.floor(acc * total))
         else:
             lo = hi = int(acc)
         if len(V) > max(1, hi):
